@@ -60,8 +60,11 @@ def run_with_scenarios(mod, ctx):
         sub.scenario = _alt_label(alt)
         try:
             mod.run(sub)
-        except AnalysisError as e:
-            skipped.append(f"{sub.scenario}: {e}")      # the alternative is outside the analysable subset: not decided
+        except (AnalysisError, AlgebraTimeout) as e:
+            skipped.append(f"{sub.scenario}: {e}")      # the alternative is outside the analysable subset: not decided ...
+            for f in sub.findings:                       # ... but what it established before it broke off stands
+                if f.key() not in {g.key() for g in ctx.findings}:
+                    ctx.findings.append(f)
             continue
         finally:
             S.force_sites = frozenset()
